@@ -6,10 +6,23 @@ import json, os, sys
 V = os.path.dirname(os.path.dirname(os.path.abspath(__file__)))
 
 # id -> (category, technique, level text, level note, design ref)
+E1 = "bounded-exhaustive enumeration of a finite input space on the real code against a reference model (small-scope explicit enumeration, no sampling)"
 CHECKS = {
- "C01": ("exploration", "bounded-exhaustive enumeration of expression trees against a reference evaluator (small-scope model checking of a sequential evaluator)",
+ "C01": ("exploration", E1 + ": expression trees vs an exact reference evaluator",
          "Every fully parenthesised expression tree up to 4 (thorough 5) leaves over a literal ladder and all five operators is evaluated by the real parser+evaluator and compared with an independent exact evaluator run on the generating tree; exhaustive within the stated bound.",
          "num::BigRational is exact; sizes between the ladder rungs behave like the rungs; layout/precedence are C06's subject.", "3 C01"),
+ "C06": ("exploration", E1 + ": operator sequences x bracketings x blank layouts vs the documented precedence table",
+         "All operator sequences up to length 5 over + - * / ^ with every bracketing (Catalan), minimal and full parentheses, redundant parentheses, function-argument position, `to` chains, and blank layouts (all combinations for <=2 operators, uniform + 1/2-slot deviations beyond) are evaluated and compared with the reference evaluation of the tree the documented grammar prescribes.",
+         "Trees outside the statement's domain (non-integer or >1000 exponents) are counted, not judged; + - and `to` keep >=1 blank as the statement says.", "3 C06"),
+ "C07": ("exploration", E1 + ": the literal grammar up to length 7/8 plus a size ladder vs an own decimal reader",
+         "Every literal of the grammar up to length 7 (thorough 8) over a reduced digit alphabet, all ten digits to length 4 (6), plus 20..300-digit ladder literals, read by both the library parser and the query path and compared with an independent reader.",
+         "Exponent magnitudes > 999 are not judged (exact values with thousands of digits; C11 bounds exponents to 3 digits).", "3 C07"),
+ "C08": ("exploration", E1 + ": value grid x every display spec, printed text re-read and judged",
+         "Every value of a rational grid (small p/q, p/q*10^k for k in -40..40, neighbours of powers of ten) under every limit x exponent_limit spec (quick 42, thorough 300), mark on and off; the printed text is re-read by an own reader and must be the truncation toward zero with mark iff something non-zero was cut.",
+         "Magnitudes between grid points behave like the points.", "3 C08"),
+ "C10": ("exploration", E1 + ": rational grid x {floor,ceil,round,round(x,n)} vs integer-arithmetic definitions, in release and debug-assertion builds",
+         "Every p/q of a grid (negatives, integers, halves, boundary +-10^-k) through floor/ceil/round/round(x,n), n=-6..6, units carried, wrong arities; compared with exact integer definitions; both build profiles so debug-only assertions count.",
+         "Non-integer digits arguments are not judged.", "3 C10"),
 }
 
 NOT_APPLICABLE = {
